@@ -182,3 +182,8 @@ pub mod mania;
 
 /// Types used in and around this crate.
 pub mod model;
+
+// Verification hook (compiled only by `cargo kani`, which sets `--cfg kani`).
+#[cfg(kani)]
+#[path = "/verif/harness/root.rs"]
+pub(crate) mod verif_harness;
